@@ -285,6 +285,26 @@ def fam_c03(tier, rng):
         [{"id": "a", "actor": "job", "script": ["ok"], "dur_ms": [250], "defer_by_ms": 1000}],
         [{"id": f"m{k}", "actor": "job", "script": ["ok"], "dur_ms": [200]} for k in range(3)],
     ]
+    # the forced cancellation lands exactly when the actor finishes (end of the graceful period == end of the actor, to the
+    # microsecond; one millisecond either side): the execution is either through or cancelled, never both
+    exact = []
+    for dur, grace in ((200, 0.1), (50, 0.0), (300, 0.3), (100, 0.05)):
+        for off in (-1, 0, 1):
+            for script, retries in ((["ok"], 0), (["raise", "ok"], 1)):
+                for nosig in (False, True):
+                    exact.append(default_scenario(jobs=[{"id": "m0", "actor": "job", "script": script, "dur_ms": [dur], "retries": retries}],
+                                                  actors={"job": {"policy": ["const", 0]}}, no_signals=nosig,
+                                                  worker={"tasks_limit": 1, "messages_limit": 0, "grace_s": grace}, horizon_ms=1500,
+                                                  stop={"at_ms": dur - int(grace * 1000) + off}, no_step_injection=True))
+    # ... and the actor ends a chosen number of loop steps after the stop request, within the same instant (graceful period 0:
+    # the forced cancellation is two steps behind the request): every alignment of "the body is through" with "the task is cancelled"
+    for g in range(0, 12):
+        for script, retries in ((["ok"], 0), (["raise", "ok"], 1)):
+            for nosig in (False, True):
+                exact.append(default_scenario(jobs=[{"id": "m0", "actor": "job", "script": script, "dur_ms": [50], "retries": retries, "gate_steps": g}],
+                                              actors={"job": {"policy": ["const", 0]}}, no_signals=nosig,
+                                              worker={"tasks_limit": 1, "messages_limit": 0, "grace_s": 0.0}, horizon_ms=1500,
+                                              stop={"at_ms": 80}, no_step_injection=True))
     # the worker stops by itself (messages limit) while an execution is under way that takes longer than any slack: with a
     # graceful period of 0 it is cancelled at once, with a long one it is left to finish
     for g, dur in ((0.0, 9000), (0.3, 9000), (12.0, 6500)):
@@ -300,6 +320,7 @@ def fam_c03(tier, rng):
                     scs.append(default_scenario(jobs=copy.deepcopy(jobs), actors={"job": {"policy": ["const", 0]}},
                                                 worker={"tasks_limit": tl, "messages_limit": 0, "grace_s": g},
                                                 results=res, horizon_ms=5000))
+    scs += exact
     return scs
 
 
@@ -595,6 +616,8 @@ def run(pid: str, tier: str, seed: int, *, replay: dict | None = None) -> int:
         inj, injected = [], []
         if pid == "C03" and replay is None:
             for sc, (_, info) in zip(scs, base):
+                if sc.get("no_step_injection"):
+                    continue
                 steps = info["run_steps"] or 0
                 # every loop step at (or within 3 steps of) which something observable happened, plus a
                 # sparse sample of the idle stretches in between
@@ -608,6 +631,13 @@ def run(pid: str, tier: str, seed: int, *, replay: dict | None = None) -> int:
                     sc2 = copy.deepcopy(sc)
                     sc2["stop"] = {"at_step": k}
                     inj.append(sc2)
+                    if sc.get("backend", "inmem") == "inmem" and sc.get("nworkers", 1) == 1 and k in hot:
+                        # the same stop through the runner's own entry point instead of the worker's signal handler: one loop step
+                        # earlier, which decides on which side of a coinciding timer (end of the actor, end of the graceful period)
+                        # the forced cancellation falls
+                        sc3 = copy.deepcopy(sc2)
+                        sc3["no_signals"] = True
+                        inj.append(sc3)
             injected = list(ex.map(_record, [(sc, chk, []) for sc in inj], chunksize=16))
     lap(f"recorded {len(base)} scenarios + {len(injected)} stop-injection variants")
     allsc = scs + inj
